@@ -243,6 +243,7 @@ class FnTranslator:
         self.loop_texts = []                    # loop defs in emission order
         self.pre_conjuncts = []
         self.guard_calls = []                   # the ast.Call nodes turned into precondition conjuncts
+        self.inline_checks = []                 # tests of `if <test>: raise ...` in the head, likewise
         self.vars = {}                          # python name -> type (params + locals), insertion = field order
         self.params = []                        # lean parameter list: (lean name, type), call order
         self.self_name = None
@@ -322,6 +323,16 @@ class FnTranslator:
                 self.pre_conjuncts.append(self._guard_condition(call))
                 self.guard_calls.append(call)
                 body = body[1:]
+            elif (self.guard_names and isinstance(st, ast.If) and not st.orelse and len(st.body) == 1
+                    and isinstance(st.body[0], ast.Raise)
+                    and all(n.id in pnames for n in ast.walk(st.test) if isinstance(n, ast.Name))):
+                # round 3: argument validation written inline between / after the guard calls,
+                # `if <condition on parameters>: raise ...`: one more conjunct of the precondition (a guard call
+                # is the identity on an Int parameter, so the condition sees the values the caller passed)
+                env = {n: (mangle(n), self.vars[n]) for n in pnames}
+                self.pre_conjuncts.append('!decide (%s)' % ExprTr(self, env_override=env).cond(st.test))
+                self.inline_checks.append(st.test)
+                body = body[1:]
             else:
                 break
         self.body = body
@@ -378,6 +389,18 @@ class FnTranslator:
                     and len(st.value.args) == 1 and isinstance(st.value.args[0], ast.Name)
                     and st.value.args[0].id == first and self.vars[subject] == INT):
                 continue                         # value = int(value): the identity on Int
+            if (isinstance(st, ast.Assign) and len(st.targets) == 1 and isinstance(st.targets[0], ast.Tuple)
+                    and isinstance(st.value, ast.Tuple) and len(st.targets[0].elts) == len(st.value.elts)
+                    and self.vars[subject] == INT
+                    and all(isinstance(t, ast.Name) for t in st.targets[0].elts)
+                    and all((t.id == first and isinstance(v, ast.Call) and isinstance(v.func, ast.Name)
+                             and v.func.id == 'int' and len(v.args) == 1 and isinstance(v.args[0], ast.Name)
+                             and v.args[0].id == first)
+                            or (t.id not in gnames and isinstance(v, (ast.Name, ast.Constant)))
+                            for t, v in zip(st.targets[0].elts, st.value.elts))):
+                # round 3: `orig, value = value, int(value)`: the identity on Int plus fresh names that only the
+                # `raise` expressions can use (a fresh name in a condition is refused below: free name)
+                continue
             if isinstance(st, ast.If) and not st.orelse and len(st.body) == 1 and isinstance(st.body[0], ast.Raise):
                 for n in ast.walk(st.test):
                     if isinstance(n, ast.Name) and n.id not in env:
